@@ -13,9 +13,64 @@ SOURCES = {"iprint", "logger"}
 LOGGER_METHODS = {"info", "debug", "warning", "error", "critical", "log", "exception", "isEnabledFor"}
 
 
+LOG_ALIASES: Set[str] = set()      # local names bound to a logger method (`info = logger.info`), per analysed function
+
+
 def _is_logger_call(e: ast.AST) -> bool:
+    if isinstance(e, ast.Call) and isinstance(e.func, ast.Name) and e.func.id in LOG_ALIASES:
+        return True
     return isinstance(e, ast.Call) and isinstance(e.func, ast.Attribute) and isinstance(e.func.value, ast.Name) \
         and e.func.value.id == "logger" and e.func.attr in LOGGER_METHODS
+
+
+def _log_aliases(fn: ast.AST) -> Set[str]:
+    """names bound exactly once, to `logger.<method>`, and only ever called"""
+    out: Set[str] = set()
+    stores: Dict[str, int] = {}
+    for n in walk_no_nested(fn):
+        if isinstance(n, ast.Name) and isinstance(n.ctx, ast.Store):
+            stores[n.id] = stores.get(n.id, 0) + 1
+    for s in walk_no_nested(fn):
+        if isinstance(s, ast.Assign) and len(s.targets) == 1 and isinstance(s.targets[0], ast.Name) and \
+                isinstance(s.value, ast.Attribute) and isinstance(s.value.value, ast.Name) and s.value.value.id == "logger" \
+                and s.value.attr in LOGGER_METHODS and stores.get(s.targets[0].id) == 1:
+            nm = s.targets[0].id
+            loads = [x for x in walk_no_nested(fn) if isinstance(x, ast.Name) and x.id == nm and isinstance(x.ctx, ast.Load)]
+            called = [c.func for c in walk_no_nested(fn) if isinstance(c, ast.Call) and isinstance(c.func, ast.Name) and c.func.id == nm]
+            if len(loads) == len(called):
+                out.add(nm)
+    return out
+
+
+def _rest_after(fn: ast.AST, stmt: ast.stmt, stop_at_loop: bool):
+    """statements that run after `stmt` when it falls through, up to the end of the function (stop_at_loop=False:
+    crossing a loop boundary is reported as None) or up to the end of the innermost loop body (stop_at_loop=True)"""
+    parent: Dict[int, Tuple[ast.AST, List[ast.stmt]]] = {}
+    for n in ast.walk(fn):
+        for fld in ("body", "orelse", "finalbody"):
+            b = getattr(n, fld, None)
+            if isinstance(b, list):
+                for x in b:
+                    if isinstance(x, ast.stmt):
+                        parent[id(x)] = (n, b)
+        if isinstance(n, ast.Try):
+            for h in n.handlers:
+                for x in h.body:
+                    parent[id(x)] = (h, h.body)
+    rest: List[ast.stmt] = []
+    cur: ast.AST = stmt
+    while id(cur) in parent:
+        owner, block = parent[id(cur)]
+        i = next(k for k, x in enumerate(block) if x is cur)
+        rest += block[i + 1:]
+        if isinstance(owner, (ast.For, ast.While)):
+            return rest if stop_at_loop else None
+        if isinstance(owner, (ast.Try, ast.ExceptHandler, ast.With)):
+            return None
+        if owner is fn:
+            return None if stop_at_loop else rest
+        cur = owner
+    return None
 
 
 class LogModel:
@@ -40,9 +95,25 @@ class LogModel:
                 if ok and has_log:
                     self.helpers.add(q)
                     changed = True
+        # display predicates: they only compute, from the logging configuration, WHETHER something is displayed
+        # (constant returns under tests, no effects, no logging); their value is itself logging configuration
+        self.predicates: Set[str] = set()
+        for q, f in ctx.repo.funcs.items():
+            if q in self.helpers or f.parent is not None or f.cls is not None or not (SOURCES & set(f.params)):
+                continue
+            body = [s for s in f.node.body if not (isinstance(s, ast.Expr) and isinstance(s.value, ast.Constant))]
+            ok, _ = self.logging_only(body, f, set(SOURCES), in_helper=True)
+            rets = [r for r in walk_no_nested(f.node) if isinstance(r, ast.Return)]
+            if ok and rets and all(r.value is not None and isinstance(r.value, ast.Constant) and isinstance(r.value.value, bool) for r in rets) \
+                    and not any(_is_logger_call(c) for c in ast.walk(f.node)):
+                self.predicates.add(q)
 
     def is_helper_call(self, f: Func, c: ast.Call) -> bool:
         return any(t in self.helpers for t in self.cg.targets(f, c))
+
+    def is_predicate_call(self, f: Func, c: ast.Call) -> bool:
+        tg = self.cg.targets(f, c)
+        return bool(tg) and all(t in getattr(self, "predicates", set()) for t in tg)
 
     def effect_free(self, f: Func, e: ast.AST) -> Optional[str]:
         for c in ast.walk(e):
@@ -84,6 +155,26 @@ class LogModel:
                 continue
             if isinstance(s, ast.Return) and in_helper and (s.value is None or isinstance(s.value, ast.Constant)):
                 continue
+            if isinstance(s, (ast.Return, ast.Continue)) and not in_helper:
+                # an early exit taken for a logging reason: everything it skips must be logging-only, and the
+                # function must return the very same expression afterwards
+                rest = _rest_after(f.node, s, stop_at_loop=isinstance(s, ast.Continue))
+                if rest is None:
+                    return False, f"line {s.lineno}: `{short(s, 40)}` leaves a loop / protected block early"
+                tail_ret = rest[-1] if rest and isinstance(rest[-1], ast.Return) else None
+                skipped = rest[:-1] if tail_ret is not None else rest
+                if isinstance(s, ast.Return):
+                    same = (tail_ret is not None and s.value is not None and tail_ret.value is not None and
+                            ast.dump(s.value) == ast.dump(tail_ret.value)) or \
+                           (s.value is None and (tail_ret is None or tail_ret.value is None))
+                    if not same:
+                        return False, f"line {s.lineno}: `{short(s, 40)}` does not return what the function returns otherwise"
+                elif tail_ret is not None:
+                    return False, f"line {s.lineno}: `continue` skips a return"
+                ok, why = self.logging_only(skipped, f, tainted, in_helper, region_root=skipped)
+                if not ok:
+                    return False, f"line {s.lineno}: `{short(s, 30)}` skips more than logging ({why})"
+                continue
             if isinstance(s, (ast.Assign, ast.AnnAssign)) and getattr(s, "value", None) is not None:
                 tg = s.targets if isinstance(s, ast.Assign) else [s.target]
                 if all(isinstance(t, ast.Name) for t in tg):
@@ -91,6 +182,8 @@ class LogModel:
                     if bad:
                         return False, f"line {s.lineno}: {bad}"
                     names = {t.id for t in tg}
+                    if names <= tainted:
+                        continue      # a flag that is itself treated as logging configuration: all its uses are checked as such
                     inside = {id(x) for r in region_root for x in ast.walk(r)}
                     leaks = [x for x in ast.walk(f.node) if isinstance(x, ast.Name) and x.id in names and id(x) not in inside]
                     if leaks:
@@ -111,7 +204,7 @@ def rule_logni(ctx: Ctx) -> List[Ob]:
     need(len(lm.helpers) >= 3, f"LOGNI: only {len(lm.helpers)} display helpers recognised")
     obs: List[Ob] = []
     for q, f in sorted(ctx.repo.funcs.items()):
-        if q in lm.helpers:
+        if q in lm.helpers or q in lm.predicates:
             f_helper = True
         else:
             f_helper = False
@@ -121,6 +214,9 @@ def rule_logni(ctx: Ctx) -> List[Ob]:
             visible |= set(g.params)
             g = g.parent
         tainted = set(SOURCES & visible)
+        LOG_ALIASES.clear()
+        if tainted:
+            LOG_ALIASES.update(_log_aliases(f.node))
         # names bound to the value of a display helper
         for s in walk_no_nested(f.node):
             if isinstance(s, (ast.Assign, ast.AnnAssign)) and isinstance(getattr(s, "value", None), ast.Call) and lm.is_helper_call(f, s.value):
@@ -139,14 +235,54 @@ def rule_logni(ctx: Ctx) -> List[Ob]:
                             if isinstance(t, ast.Name) and t.id not in tainted:
                                 tainted.add(t.id)
                                 changed = True
+        # implicit flow: a local that receives only literals, and at least once under a test on the logging
+        # configuration, is a verdict flag of that configuration
+        changed = bool(tainted)
+        while changed:
+            changed = False
+            binds: Dict[str, List[ast.AST]] = {}
+            for s_ in walk_no_nested(f.node):
+                if isinstance(s_, (ast.Assign, ast.AnnAssign)) and getattr(s_, "value", None) is not None:
+                    for t in (s_.targets if isinstance(s_, ast.Assign) else [s_.target]):
+                        if isinstance(t, ast.Name):
+                            binds.setdefault(t.id, []).append(s_)
+            for s_ in walk_no_nested(f.node):
+                if isinstance(s_, ast.If) and any(isinstance(x, ast.Name) and x.id in tainted for x in ast.walk(s_.test)):
+                    for sub in [y for b_ in (s_.body + s_.orelse) for y in ast.walk(b_)]:
+                        if isinstance(sub, (ast.Assign, ast.AnnAssign)) and getattr(sub, "value", None) is not None:
+                            for t in (sub.targets if isinstance(sub, ast.Assign) else [sub.target]):
+                                if isinstance(t, ast.Name) and t.id not in tainted and t.id not in f.params and \
+                                        all(isinstance(b_.value, ast.Constant) for b_ in binds.get(t.id, [])):
+                                    tainted.add(t.id)
+                                    changed = True
+            # ... and copies / combinations of such flags (explicit flow again)
+            for s_ in walk_no_nested(f.node):
+                if isinstance(s_, (ast.Assign, ast.AnnAssign)) and getattr(s_, "value", None) is not None and not isinstance(s_.value, ast.Call):
+                    if any(isinstance(x, ast.Name) and x.id in tainted for x in ast.walk(s_.value)):
+                        for t in (s_.targets if isinstance(s_, ast.Assign) else [s_.target]):
+                            if isinstance(t, ast.Name) and t.id not in tainted:
+                                tainted.add(t.id)
+                                changed = True
         if not tainted:
             continue
+        _CUR[:] = [lm, f]
         obs += _check_block(lm, f, f.node.body, tainted, f_helper)
+        _CUR[:] = []
     return obs
 
 
+_CUR: List = []     # (LogModel, Func) of the function being checked
+
+
 def _tainted_occ(e: ast.AST, tainted: Set[str]) -> List[ast.Name]:
-    return [x for x in walk_no_nested(e) if isinstance(x, ast.Name) and x.id in tainted and isinstance(x.ctx, ast.Load)]
+    occ = [x for x in walk_no_nested(e) if isinstance(x, ast.Name) and x.id in tainted and isinstance(x.ctx, ast.Load)]
+    if _CUR and not occ:
+        lm, f = _CUR
+        for c in walk_no_nested(e):
+            if isinstance(c, ast.Call) and lm.is_predicate_call(f, c):
+                # the value of a display predicate is logging configuration; its own arguments are checked as a call
+                return [a for a in ast.walk(c) if isinstance(a, ast.Name) and isinstance(a.ctx, ast.Load)][:1] or []
+    return occ
 
 
 def _check_block(lm: LogModel, f: Func, stmts: List[ast.stmt], tainted: Set[str], in_helper: bool) -> List[Ob]:
@@ -227,7 +363,7 @@ def _occurrence_ok(lm: LogModel, f: Func, root: ast.AST, occ: ast.Name, tainted:
             direct = [a for a in c.args if a is occ] + [k.value for k in c.keywords if k.value is occ]
             if not direct:
                 continue
-            if lm.is_helper_call(f, c) or _is_logger_call(c):
+            if lm.is_helper_call(f, c) or _is_logger_call(c) or lm.is_predicate_call(f, c):
                 return True, "argument of a display helper"
             tg = lm.cg.targets(f, c)
             if tg:
